@@ -27,3 +27,7 @@ def run(ctx, rep):
     from ..rules import more3
     more3.rule_prune_guard(mod, rep)
     more3.rule_queue_order(mod, rep)
+    from ..rules import more4
+    more4.rule_busy_fnz(mod, rep)
+    more4.rule_int_work_fill(mod, rep)
+    more4.rule_complex_nonzero(mod, rep)
